@@ -116,22 +116,46 @@ class SchedLock:
         self.release()
 
 
+class _ThreadingShim:
+    """stands in for the `threading` module inside the library's modules during controlled runs: locks the
+    library creates while a schedule is running are scheduler-aware too (e.g. a per-object lock)"""
+
+    def __init__(self, real):
+        self._real = real
+
+    def RLock(self):
+        return SchedLock()
+
+    def Lock(self):
+        return SchedLock()
+
+    def __getattr__(self, name):
+        return getattr(self._real, name)
+
+
 def patch_lock():
-    """swap the library's resolution lock for a scheduler-aware one (returns an undo function)"""
-    import ovld.core as core
-    import ovld.typemap as tm
-    if not hasattr(tm, "resolution_lock"):
-        return lambda: None
-    old = tm.resolution_lock
-    new = SchedLock()
-    tm.resolution_lock = new
-    if hasattr(core, "resolution_lock"):
-        core.resolution_lock = new
+    """Make every lock of the library scheduler-aware for the controlled runs (returns an undo function):
+    module-level lock objects of ovld.* modules are replaced by SchedLock instances (one per original lock, so
+    sharing between modules is preserved) and the modules' `threading` attribute by a shim whose RLock / Lock
+    build SchedLocks."""
+    lock_types = (type(threading.RLock()), type(threading.Lock()))
+    undo_list = []
+    replaced = {}
+    for name, mod in list(sys.modules.items()):
+        if not (name == "ovld" or name.startswith("ovld.")) or mod is None:
+            continue
+        for k, v in list(vars(mod).items()):
+            if isinstance(v, lock_types):
+                new = replaced.setdefault(id(v), SchedLock())
+                undo_list.append((mod, k, v))
+                setattr(mod, k, new)
+            elif v is threading:
+                undo_list.append((mod, k, v))
+                setattr(mod, k, _ThreadingShim(threading))
 
     def undo():
-        tm.resolution_lock = old
-        if hasattr(core, "resolution_lock"):
-            core.resolution_lock = old
+        for mod, k, v in undo_list:
+            setattr(mod, k, v)
     return undo
 
 
